@@ -298,7 +298,21 @@ def main(run):
         lines.append("rd %d %d %d %d %s %s %s %s %s %s %s %s %s %s %s %s" % (
             npa, nsat, nii, nij, Q(cut), " ".join(map(str, s2pp)), _flat(eii), _flat(cosii), _flatc(eij), _flatc(phij),
             _flat(fii), _flat(sii), _flat(fij), _flat(sij), _flat(rm), Q(np.sqrt(2))))
-        meta.append(("rd", info, dict(A=A, cov=covI)))
+        nsat3 = 3 * nsat
+        uu_full = uu.transpose(0, 2, 1, 3).reshape(nsat3, nsat3)
+        uui_full = uui.transpose(0, 2, 1, 3).reshape(nsat3, nsat3)
+        sig_ok = np.isfinite(uui_full).all()
+        meta.append(("rd", info, dict(A=A, cov=covI, uu=uu_full, uui=uui_full if sig_ok else None)))
+        # character orthogonality of the sampler's phase tables over every sublattice (hypothesis `ModesOrthonormal.char`)
+        allph = np.vstack([cosii.astype(complex)] + ([phij, phij.conj()] if nij else []))
+        hyp3 = 0.0
+        for p_ in range(npa):
+            sel = np.where(s2pp == p_)[0]
+            g_ = allph[:, sel].conj() @ allph[:, sel].T
+            hyp3 = max(hyp3, np.abs(g_ - N * np.eye(len(allph))).max() / N)
+        run.count("hypotheses-checked(character orthogonality of the phase tables per sublattice)", section="correspondence")
+        if hyp3 > 1e-8:
+            run.broke("correspondence", "hypothesis ModesOrthonormal.char fails numerically (%.3g)" % hyp3, info)
         # correlation matrices
         qpts, evals_c, evecs_c = rd._collect_eigensolutions()
         qpts = np.array(qpts, dtype="double")
@@ -524,11 +538,14 @@ def main(run):
             continue
         if kind == "rd":
             flag, rest = line.split(" ", 1) if " " in line else (line, "")
-            a_s, c_s = rest.split("|")
+            a_s, c_s, v_s = rest.split("|")
             if flag != "same":
                 run.broke("correspondence", "model: displ on unit vectors differs from the coefficient matrix", info)
             cmp(kind, "A", ref["A"], vec(a_s), info)
             cmp(kind, "AAt", ref["cov"], vec(c_s), info)
+            cmp(kind, "uu-full(all supercell rows)", ref["uu"], vec(c_s), info)
+            if ref["uui"] is not None:
+                cmp(kind, "uu_inv-full(all supercell rows)", ref["uui"], vec(v_s), info)
         elif kind == "corr":
             u_s, v_s = line.split("|")
             cmp(kind, "uu", ref["uu"], vec(u_s), info)
@@ -552,7 +569,6 @@ def main(run):
     run.cov["correspondence"]["compared"] = ncmp
     run.cov["oracle"]["population-dropped-at-T<=guard(cases)"] = f13_hits
     run.cov["partial"] = [
-        "uu_inv_is_inverse_partial: per commensurate point (spectral projector); the supercell statement FullStatement_uu_inv_is_inverse is carried by the oracle (UVU=U, VUV=V, tr(UV)=rank)",
         "d2f_identity: eigh exactness, D(-q)=conj D(q) and character orthogonality are hypotheses; the end-to-end statement is carried by the oracle (run_d2f returns the input force constants)",
         "uu_eq_cov: theorem under phase-table hypotheses that are checked numerically per case",
     ]
